@@ -38,6 +38,7 @@ RULE = (
     "block that leads back to the extending template; strict mode; judged: the render ends within 3 000 000 steps in success or a ContextDepthError / "
     "TemplateInheritanceError / other ResourceLimitError, and no RecursionError is raised anywhere. Non-trivial = source with >= 1 markup token, or a "
     "family with a real cycle; distinct by content."
+    " Rounds 5-6 added enumerated families: tolerant-mode families with fan-out 1-3 (also inside 13 / 20 nested blocks); long cycles (5-24 partials) mixing include / render / render-for; expression-level opener x filler runs."
 )
 REQUIRED = [
     ("liquid/parser.py", "Parser.parse_block"),
